@@ -49,6 +49,13 @@ def check_weight(R, monitor, model, opts, where):
             R.fail(monitor, f'domain/weight-shape/{name}', f'{where}: weight shape {w.shape}', prop='C09')
             return
         Kc = w.shape[-2]
+        given = opts.get('wca_given')
+        nd_ = len(opts['aff_shape']) if opts.get('aff_shape') is not None else None
+        if isinstance(given, int) and nd_ and given % nd_ == nd_ - 2 and K and K > 1:
+            # "When the weight_constant_axis is -2 or the positive counterpart, then the returned shape is always (K, 1) and the value is 1/K"
+            R.check(monitor, w.shape == (K, 1) and np.allclose(w, 1 / K, rtol=0, atol=4 * weps), f'domain/weight-uniform/{name}',
+                    f'{where}: weight_constant_axis={given} (the class axis): weight of shape {w.shape} is not the documented (K, 1) array of 1/K', prop='C09')
+            return
         if Kc == 1 and K and K > 1:
             # tied over the class axis: documented value 1/K (0 where a source-activity mask switches
             # every class off)
@@ -126,11 +133,16 @@ def check_cacg(R, monitor, cacg, opts, where):
         if degenerate.any():
             R.count('C09:cacg zero-scatter class (all eigenvalues floored)', int(degenerate.sum()))
         R.check(monitor, bool(np.all(ok | degenerate)), 'domain/cacg/trace-not-one', f'{where}: trace of eigenvalues {tr.min():.6g}..{tr.max():.6g}', prop='C09')
+        if degenerate.any() and floor > 0:
+            # a unit-trace covariance has a largest eigenvalue >= 1/D: one at or below the floor is the zero-scatter class, whose eigenvalues sit at the floor itself
+            R.check(monitor, bool(np.all(lam[degenerate] >= floor * (1 - 1e-12))), 'domain/cacg/degenerate-not-floored', f'{where}: zero-scatter class with eigenvalues {lam[degenerate].min():.3e} below the floor {floor}', prop='C09')
         R.check(monitor, bool(np.all(mn >= floor * mx * (1 - 1e-12))), 'domain/cacg/below-floor', f'{where}: eigenvalue below floor*max', prop='C09')
     else:
         R.check(monitor, bool(np.all(mn >= floor * mx * (1 - 1e-12))), 'domain/cacg/below-floor', f'{where}: eigenvalue below floor*max', prop='C09')
     if floor > 0:
-        R.check(monitor, bool(np.all(mn > 0)), 'domain/cacg/not-positive', f'{where}: covariance not positive definite (eigenvalue {mn.min():.3e})', prop='C09')
+        with np.errstate(all='ignore'):
+            usable = bool(np.all(mn > 0)) and bool(np.isfinite(1.0 / mn).all())       # the density is evaluated with the reciprocal eigenvalues
+        R.check(monitor, usable, 'domain/cacg/not-positive', f'{where}: covariance not (numerically) positive definite (eigenvalue {mn.min():.3e})', prop='C09')
     return
     if floor > 0:
         if (mn <= 0).any() and not ((mx == 0).any()):
